@@ -19,7 +19,7 @@
      whose outcome departs from the reference run (signatures are computed from the input
      log and the partition only):
      2 C13-K1  a Claim/Advance whose guard expects a terminal status and whose new status
-               is active, followed in the batch by a Create for the same channel
+               is active, together with (before or after) a Create for the same channel
      3 C13-K2  Create of an active task, later a command giving a task of that channel a
                terminal status, later another Create for the channel
      4 C13-K3  a garbage-collect command together with another task-writing command
@@ -227,16 +227,18 @@ Fixpoint exists_then {A} (p : A -> list A -> bool) (l : list A) : bool :=
   | x :: r => p x r || exists_then p r
   end.
 
-(* K1: Claim/Advance (guard expects terminal, new status active) ... Create same channel *)
+(* K1: a Claim/Advance whose guard expects a terminal status and whose new status is active, and
+   (before or after it in the batch) a Create for the same channel: both commands consult the
+   committed active index, neither sees the other *)
 Definition sig_k1 (batch : list entry) : bool :=
-  exists_then (fun e rest =>
+  existsb (fun e =>
     match cm_of e with
     | Some c =>
       is_claim_advance c && opt_terminal (cmd_expected_status c) && opt_active (cmd_new_status c)
       && match cmd_task_key c with
          | Some k => existsb (fun e' => match cm_of e' with
                                          | Some c' => is_create c' && on_chan e' (e_hs e) (tk_chan k)
-                                         | None => false end) rest
+                                         | None => false end) batch
          | None => false
          end
     | None => false
